@@ -134,3 +134,59 @@ def model_of(pc):
     if s.check() != z3.sat:
         return None
     return s.model()
+
+
+class SymInt(int):
+    """an int whose value is a z3 Int term; comparisons fork (enough for bounds checks; no arithmetic)"""
+
+    def __new__(cls, term, label: int = 0):
+        obj = int.__new__(cls, label)
+        obj.t = term
+        return obj
+
+    @staticmethod
+    def term_of(o):
+        if isinstance(o, SymInt):
+            return o.t
+        if isinstance(o, bool):
+            return None
+        if isinstance(o, int):
+            return z3.IntVal(o)
+        if isinstance(o, float) and o == int(o):
+            return z3.IntVal(int(o))
+        if isinstance(o, float):
+            return z3.RealVal(str(o))
+        return None
+
+    def _cmp(self, o, f):
+        t = SymInt.term_of(o)
+        if t is None:
+            return NotImplemented
+        return _fork(f(self.t, t))
+
+    def __lt__(self, o):
+        return self._cmp(o, lambda a, b: a < b)
+
+    def __le__(self, o):
+        return self._cmp(o, lambda a, b: a <= b)
+
+    def __gt__(self, o):
+        return self._cmp(o, lambda a, b: a > b)
+
+    def __ge__(self, o):
+        return self._cmp(o, lambda a, b: a >= b)
+
+    def __eq__(self, o):
+        r = self._cmp(o, lambda a, b: a == b)
+        return False if r is NotImplemented else r
+
+    def __ne__(self, o):
+        return not self.__eq__(o)
+
+    def __hash__(self):
+        return 0
+
+    def __repr__(self):
+        return f'<int {self.t}>'
+
+    __str__ = __repr__
